@@ -36,6 +36,12 @@ helpers / closures / Option combinators expanded):
   R7 push             Inventory::push appends its argument to self.artifacts on every path and does nothing else to it
   R8 adapters         the blanket ArtifactRequirement impl delegates to VersionRequirement::satisfies and accepts all
                       metadata; the semver adapter is VersionReq::matches
+Round 5 normal forms (C18_helpers): tuple equality `(a.os, a.arch) == (os, arch)` is the conjunction of its component
+tests (expand_atom); Option::filter / or / or_else in a fold step are expanded into the decisions they take
+(value_cases, _opt_rows); `s.splitn(2, P)` taken apart with next().zip(next()) or two next() in a row is split_once(P)
+(call order read off the CFG: _splitn_ordinal), `<Vec<u8> as FromHex>::from_hex` is hex::decode (norm_split); a digest's
+name test is string equality with the literal however written (str_eq_const), its size the output_size() of the type a
+private generic helper is instantiated with (size_self_types).
 Not decided: maximality for unlawful PartialOrd impls; TOML round-trip equality (toml, hex crates).
 """
 import re
@@ -205,30 +211,38 @@ def run(ctx, rep):
         # sha2 re-exports CoreWrapper types; match by the impl's self type rendering
         impls = [i for i in prog.impls if i['trait'] == CK + 'Digest' and i['crate'] == 'libherokubuildpack']
         nc = [f for f in prog.fns.values() if f.impl_trait == CK + 'Digest' and f.path.endswith('::name_compatible')]
+        # the name test is byte-wise equality of the argument with the literal, however it is written (==, eq with the
+        # operands either way round, matches! / a two-armed match: C18_helpers.str_eq_const); the length test is equality
+        # of the argument with output_size(), either way round, private helpers around it transparent (inline_deep)
+        def answers(f):
+            t = H.str_eq_const(sl.inline_deep(sl.local(f, 0)))
+            return t is not None and t[1] == name and H.is_param(t[0], f, 0)
         found = False
-        for f in nc:
-            v = strip(sl.local(f, 0))
-            if v[0] == 'call' and v[1].endswith('::eq') and strip(v[2][1]) == ('const', name):
-                lc = prog.fns.get(f.path[:-len('name_compatible')] + 'length_compatible')
-                lv = strip(sl.local(lc, 0)) if lc else ('unknown',)
-                # `len == size` and `size == len` are the same test
-                sides = [(lv[2], lv[3]), (lv[3], lv[2])] if lv[0] == 'bin' and lv[1] == 'Eq' else []
-                found = any(strip(a)[0] == 'param' and strip(b)[0] == 'call' and strip(b)[1].endswith('output_size') for a, b in sides)
-                rep.analysed(f)
+        mine = [f for f in nc if answers(f)]
+        for f in mine:
+            lc = prog.fns.get(f.path[:-len('name_compatible')] + 'length_compatible')
+            lv = strip(sl.inline_deep(sl.local(lc, 0))) if lc else ('unknown',)
+            # `len == size` and `size == len` are the same test
+            sides = [(lv[2], lv[3]), (lv[3], lv[2])] if lv[0] == 'bin' and lv[1] == 'Eq' else []
+            found = any(H.is_param(a, lc, 0) and strip(b)[0] == 'call' and strip(b)[1].endswith('output_size') and not strip(b)[2] for a, b in sides)
+            rep.analysed(f)
         rep.check(found, 'R5', name, 'libherokubuildpack/src/inventory/sha2.rs', '"%s" with its digest\'s output_size()' % name, 'no Digest impl pairing "%s" with output_size()' % name)
         # the impl that answers to "shaN" is the one for sha2's N-bit hasher, and the size it compares with is the
         # output size of its own type (Self::output_size(), <Sha256 as OutputSizeUser>::output_size(), a macro
-        # parameter .. all resolve to the same callee type)
+        # parameter, a private generic helper instantiated with the type .. all resolve to the same callee type:
+        # C18_helpers.size_self_types)
         bits = name[3:]
-        mine = [f for f in nc if strip(sl.local(f, 0))[0] == 'call' and strip(strip(sl.local(f, 0))[2][1]) == ('const', name)]
         ok, why = len(mine) == 1, '%d impls answer to "%s"' % (len(mine), name)
         if ok:
             m = re.search(r'Digest for (.*)>::name_compatible$', mine[0].path)
             selfty = m.group(1) if m else ''
             lc = prog.fns.get(mine[0].path[:-len('name_compatible')] + 'length_compatible')
-            sizes = [c for c in (lc.calls if lc else ()) if (c.decl or c.name or '').endswith('::output_size')]
-            ok = ('Sha%sVarCore' % bits) in selfty and bool(sizes) and all((c.full or '').startswith('<' + selfty + ' as ') for c in sizes)
-            why = '"%s" is answered by the impl for %s, which compares with %s' % (name, selfty[:60] + '..', [(c.full or c.name)[:80] for c in sizes])
+            sizes = H.size_self_types(prog, lc) if lc else []
+            if ('Sha%sVarCore' % bits) in selfty and sizes and None in sizes:
+                rep.unproven('R5', name + '/own-size', 'libherokubuildpack/src/inventory/sha2.rs', 'the type whose output_size() "%s" is compared with could not be resolved through a generic helper' % name)
+                continue
+            ok = ('Sha%sVarCore' % bits) in selfty and bool(sizes) and all(t == selfty for t in sizes)
+            why = '"%s" is answered by the impl for %s, which compares with the output size of %s' % (name, selfty[:60] + '..', [(t or '?')[:80] for t in sizes])
         rep.check(ok, 'R5', name + '/own-size', 'libherokubuildpack/src/inventory/sha2.rs', '"%s" belongs to the %s-bit hasher and compares with its own output size' % (name, bits), why)
     # ---- R4 (data flow) --------------------------------------------------------------------------------
     if len(de) == 1:
